@@ -463,6 +463,9 @@ def gen_variant_cases(rng, n_per_system):
             # "a path to a relations file given in place of a system name is used as the relations"
             other = [x for x in fc.SYSTEMS if x != system][int(rng.integers(0, len(fc.SYSTEMS) - 1))]
             cases.append(dict(base, variant="userfile-named", columns=bcols, values=bvals, user_file_name=f"relations/{other}"))
+            # ... and in the working directory itself under a bare name that differs from a packaged name only in letter case
+            cases.append(dict(base, variant="userfile-named", columns=bcols, values=bvals,
+                              user_file_name="cwd:" + (other.capitalize() if t % 2 else other.upper())))
             # ... the same by a RELATIVE path from a scratch working directory and by an ABSOLUTE path (other directories, the base
             # name is a packaged system whose own relations differ)
             other2 = [x for x in fc.SYSTEMS if x != system][int(rng.integers(0, len(fc.SYSTEMS) - 1))]
